@@ -42,6 +42,9 @@ func runWorld(t *testing.T, wc worldCheck) {
 	rapid.Check(t, func(t *rapid.T) {
 		p := wc.profile()
 		conf := harness.GenConf(t, p.Conf)
+		if p.ConfFn != nil {
+			conf = p.ConfFn(t)
+		}
 		w, why := harness.NewWorld(conf, p.Opts, append([]string{wc.prop}, wc.also...)...)
 		if w == nil {
 			st.Label("generator-unsound-config", 1)
@@ -59,6 +62,9 @@ func runWorld(t *testing.T, wc worldCheck) {
 				t.Fatalf("generator unsound: illegal op %s", op)
 			}
 			w.Step(op)
+		}
+		if os.Getenv("VERIF_DIAG_ASKLOG") != "" && !w.Dead {
+			w.TagAskLogs()
 		}
 		if p.Epilogue && !w.Dead && len(w.Vios) == 0 {
 			w.Drain()
